@@ -78,6 +78,34 @@ LEVEL.update({
             'real tools. Partial: reproducibility per seed relies on numpy (monitor).', '6 C20'),
 })
 
+LEVEL.update({
+    'C07': ('proof', 'In Coq every definition is a function, so determinism of the model needs no theorem; the part that can '
+            'fail in a faithful model - dependence on the process-global container counter - is an equivariance theorem '
+            '(shifting the counter start commutes with every executor tick and run). The property itself is decided by '
+            'correspondence: the run is executed in this process twice and in three fresh interpreter processes (different '
+            'PYTHONHASHSEED, after unrelated simulations, uuid4 patched) and every canonical event log must equal the single '
+            'trace the model computes; generated workloads are compared across scheduler/executor settings and seeds. '
+            'Partial: CPython hash/identity order effects and numpy PCG64 seed behaviour are detected, not proved.', '6 C07'),
+    'C13': ('proof', 'Theorems: for every rounding function the replay delivers a prefix of the pipelines, each once, in file '
+            'order; for exact arithmetic each pipeline is delivered in tick ceil(a*tps) iff that is before the end, and the '
+            'gentrace round trip is exact; for the float code (rnd64) the tick is ceil(x) except within 4*2^-53 of a '
+            'boundary, never earlier than ceil(x)-0 beyond that band; the on-grid/late-by-one clause is REFUTED for the '
+            'float code by kernel-computed witnesses (recorded finding F7). Correspondence on every grid point k<=2000 at '
+            'ten tick rates, off-grid decimals, far-out ticks, and real gentrace round trips.', '6 C13'),
+    'C15': ('proof', 'The generator is modelled as a function of its draw stream; theorems for every stream: batch size, fresh '
+            'ids, query single operator, chains, first operator I/O-heavy, later operators never the heaviest prototype, '
+            'ladder total and monotone (raising cpu_io_ratio never lowers the prototype, strictly raises it for some draw), '
+            'gap = draw + 1 >= 1 tick, pairing bounds for the mean gap and operator count, inverse-CDF measure of choice; '
+            'prototype ladder and source bridge-checked; correspondence by recorded-draw replay incl. scripted boundary '
+            'draws. Partial: the distribution of numpy draws is assumed (statistical tests reported as such).', '6 C15'),
+    'C19': ('proof', 'Bookkeeping theorems for every input history (new/other disjoint, complete reported exactly once and never '
+            'again, nothing dropped before reported, call iff arrival/result/poll due with the code\'s float clock, exact '
+            'poll-gap bounds), reply codec round trip, payload type without resource needs; 26 bridge obligations on key '
+            'lists, source text and Go struct tags; correspondence and monitors on loop-back HTTP runs compared with an '
+            'independent in-process replay of the same decisions. Partial: HTTP/JSON transport and the Go reference '
+            'scheduler (no toolchain) are outside the proof.', '6 C19'),
+})
+
 NOTES = {
     'C04': 'exact-arithmetic theorems; float drift measured (tolerance 1e-6 GB); memory demands are Python floats',
     'C11': 'score compared as computed by the code (two float operations); monitor ignores relative score gaps < 1e-9',
